@@ -8,6 +8,7 @@ package operationapplier
 
 import (
 	"fmt"
+	"math"
 
 	"github.com/pkg/errors"
 
@@ -367,6 +368,11 @@ func (s *Applier) verifyAnchoringTimeRange(from, until int64, anchor uint64) err
 		return nil
 	}
 
+	if anchor > math.MaxInt64 {
+		// beyond every representable anchor until time
+		return fmt.Errorf("anchor until time is less then anchoring time")
+	}
+
 	if from > int64(anchor) {
 		return fmt.Errorf("anchor from time is greater then anchoring time")
 	}
@@ -380,7 +386,17 @@ func (s *Applier) verifyAnchoringTimeRange(from, until int64, anchor uint64) err
 
 func (s *Applier) getAnchorUntil(from, until int64) int64 {
 	if from != 0 && until == 0 {
-		return from + int64(s.MaxOperationTimeDelta)
+		// from + maximum operation time delta, without wrapping around
+		delta := s.MaxOperationTimeDelta
+		if delta > math.MaxInt64 {
+			delta = math.MaxInt64
+		}
+
+		if until = from + int64(delta); from > 0 && until < from {
+			until = math.MaxInt64
+		}
+
+		return until
 	}
 
 	return until
